@@ -527,7 +527,7 @@ fn navigate(rep: &mut Report, rd: &mut Reader, fam: &str, text: &str) {
 
 pub fn run(cfg: &Config) -> i32 {
 	let started = Instant::now();
-	let thorough = cfg.tier == Tier::Thorough;
+	let thorough = cfg.tier == Tier::Thorough && !cfg.san;
 	let mut total = Report::new();
 	let seed = cfg.seed;
 	let shards = 64usize;
@@ -608,7 +608,7 @@ pub fn run(cfg: &Config) -> i32 {
 		},
 		total,
 		started,
-		50_000,
+		if cfg.san { 2_000 } else { 50_000 },
 	)
 	.exit
 }
